@@ -218,8 +218,10 @@ def rule_no_growth(ctx: Ctx, repo: Repo) -> None:
                 if call.func.attr == "rewrite":
                     return R("rewritten", by=K("self"), of=args[0])
                 if call.func.attr == "make_anonymous_typed_dict":
-                    _m.append(dict(kwargs))
-                    return R("typeddict", required=kwargs.get("required_fields", K(None)), optional=kwargs.get("optional_fields", K(None)))
+                    b_ = dict(zip(("required_fields", "optional_fields"), args))
+                    b_.update(kwargs)
+                    _m.append(b_)
+                    return R("typeddict", required=b_.get("required_fields", K(None)), optional=b_.get("optional_fields", K(None)))
             return _b(call, fname, fval, args, kwargs, st)
         sc.ri.call_hook = hook
         res = sc.result({ps[0]: S("self"), ps[1]: t})
